@@ -128,6 +128,7 @@ private:
     tensor_size_t     m_batch{100};                  ///<
     scaling_type      m_scaling{scaling_type::none}; ///< scaling method for flatten feature values & targets
     tensor4d_t        m_targets;                     ///< cached targets values
+    scaling_type      m_targets_scaling{scaling_type::none}; ///< scaling method used for the cached targets values
     scalar_stats_t    m_targets_stats;               ///< statistics for targets
     mutable buffers_t m_targets_buffers;             ///< per-thread buffer
 };
@@ -179,6 +180,7 @@ private:
     scalar_stats_t    m_flatten_stats;   ///< statistics for flatten feature values
     mutable buffers_t m_flatten_buffers; ///< per-thread buffer
     tensor2d_t        m_flatten;         ///< cached feature values
+    scaling_type      m_flatten_scaling{scaling_type::none}; ///< scaling method used for the cached feature values
 };
 
 ///
